@@ -606,6 +606,8 @@ class Unroller(ast.NodeTransformer):
             recv = f.value.id
         if g is None or g.args.vararg or g.args.kwarg or g.args.kwonlyargs or g.args.posonlyargs:
             return None
+        if any(isinstance(n, ast.Call) and ((isinstance(n.func, ast.Name) and n.func.id == g.name) or (isinstance(n.func, ast.Attribute) and n.func.attr == g.name)) for n in ast.walk(g)):
+            return None  # a generator that calls itself is not unfolded
         decos = {ast.unparse(d) for d in g.decorator_list}
         if decos - {"staticmethod", "classmethod"}:
             return None
